@@ -9,7 +9,7 @@
 (* The monitor is total: it abstracts the raw facts into the observation record of TLSVerify,   *)
 (* evaluates the SAME Rules clauses that stage 1 checked on the model (hard verdict: name of    *)
 (* the failing clause) and compares with the Model's prediction Final(cfg, srv) (drift verdict),*)
-(* prints one VERDICT line per trace and moves on.                                              *)
+(* prints one "VERDICT|id|hard clause|drift clause" line per trace and moves on.                                              *)
 EXTENDS TLSVerify, Json, IOUtils, TLCExt
 
 Traces == JsonDeserialize(IOEnv.TRACE_FILE)
@@ -63,6 +63,9 @@ Dummy == InitState([reqs |-> "default", ah |-> "unset", fp |-> "unset", sh |-> "
                     backend |-> "ssl", route |-> "direct"],
                    [issuer |-> "trusted", san |-> "exact", host |-> "lower"])
 
+\* one line per trace; a plain string, because TLC's pretty-printer wraps tuples wider than 80 columns
+Verdict(id, hard, drift) == PrintT("VERDICT|" \o ToString(id) \o "|" \o hard \o "|" \o drift)
+
 TInit == tid = 1 /\ st = Dummy
 
 TNext ==
@@ -71,14 +74,14 @@ TNext ==
            cfg == CfgOfRec(t.p)
            srv == SrvOfRec(t.p)
        IN IF ~(cfg \in Cfg /\ srv \in Srv)
-          THEN PrintT(<<"VERDICT", t.id, "MalformedTrace", "ok">>) /\ st' = st
+          THEN Verdict(t.id, "MalformedTrace", "ok") /\ st' = st
           ELSE IF ~t.o.joined
-          THEN PrintT(<<"VERDICT", t.id, "HarnessStall", "ok">>) /\ st' = st
+          THEN Verdict(t.id, "HarnessStall", "ok") /\ st' = st
           ELSE LET o == Abs(t.o)
                    m  == FinalKD(cfg, srv, AllKnownDefects)     \* the code as it is
                    m0 == FinalKD(cfg, srv, {})                  \* the code as the findings ask it to be
                    d  == IF DriftClause(m0, o, t.o) = "ok" THEN "ok" ELSE DriftClause(m, o, t.o)
-               IN PrintT(<<"VERDICT", t.id, RulesClause(cfg, srv, o), d>>) /\ st' = m
+               IN Verdict(t.id, RulesClause(cfg, srv, o), d) /\ st' = m
     /\ tid' = tid + 1
 
 TSpec == TInit /\ [][TNext]_tvars
